@@ -167,6 +167,26 @@ def shard(ctx, si, payload):
             probs.append(f"l(u4 -> 0, 1) = {g.losPathLen[6]!r}, {g.losPathLen[7]!r}; ray-sphere intersection gives horizon {lmax_ref!r}, minimum {lmin_ref!r}")
         if probs:
             ctx.violation("region", f"altitude {alt} km, limb {limb}: " + "; ".join(probs), wit)
+        # ---- one node array scanned over configurations (the usual way an acceptance curve is made):
+        #      the estimate from the shared array must be the estimate from a private copy of the nodes
+        shared = np.vstack([rng.uniform(0, 1, 2048) for _ in range(4)])
+        nodes0 = shared.copy()
+        scan = [cfg, make_cfg(alt * 1.5, limb, cone, az), make_cfg(alt, limb, min(89.0, cone * 2), az), cfg]
+        for j, c2 in enumerate(scan):
+            try:
+                ga, gb = RegionGeom(c2), RegionGeom(c2)
+                ga.throw(shared)
+                gb.throw(nodes0.copy())
+                na, nb = int(np.sum(ga.event_mask)), int(np.sum(gb.event_mask))
+                ea_ = ga.mcintegral(np.ones(na), -1.0, np.ones(na), 0.5, 1.0, 1.0)[1]
+                eb_ = gb.mcintegral(np.ones(nb), -1.0, np.ones(nb), 0.5, 1.0, 1.0)[1]
+            except Exception as e:
+                ctx.exception("raises", f"throw / mcintegral raised at step {j} of a scan with one shared node array", e, wit)
+                break
+            ctx.count("shared-grid")
+            if not (na == nb and ea_ == eb_ and np.array_equal(np.asarray(ga.losPathLen), np.asarray(gb.losPathLen))):
+                ctx.violation("shared-grid", f"altitude {alt} km: step {j} of a scan that re-uses one array of nodes: geometry-only integral {ea_!r} from the shared array, {eb_!r} from a private copy of the same nodes ({na} vs {nb} events kept; node array {'changed' if shared.tobytes() != nodes0.tobytes() else 'unchanged'})", dict(wit, step=j))
+                break
         # ---- quadrature against the independent aperture
         if payload["sobol_m"] and k < payload["nquad"]:
             from scipy.stats import qmc
@@ -220,7 +240,7 @@ def run(ctx):
         for i in range(nsh)
     ]
     core.run_shards(ctx, "nssmon.checks.c01", "shard", payloads, workers=nsh)
-    for m in ("identity", "one-hot", "geo-sum", "region", "quadrature-truncated", "quadrature-full"):
+    for m in ("identity", "one-hot", "geo-sum", "shared-grid", "region", "quadrature-truncated", "quadrature-full"):
         ctx.require(m)
     return ctx.finish(
         rule="configurations: altitude {1,5,33,525,1000,36000} km and log-uniform, limb angle {default, 1e-3..0.999 of the horizon nadir angle}, cone {0.1,.5,3,20,60,89} deg, azimuth {1,90,360} deg; per configuration uniform interior points (u1,u4 in [.01,.99]) for the finite-difference identity (9 throws each), a one-hot subsample through the real mcintegral, region edge points and scrambled-Sobol quadratures; a case is a distinct (configuration, u) that is a kept event away from the 42 deg limit",
